@@ -22,3 +22,10 @@ Theorem C09_unknown_round_has_no_keys :
   forall m i, create = LoadOk i -> ~ valid_sig (i_payload i) m.
 Proof. exact fresh_round_no_valid_sig. Qed.
 Print Assumptions C09_unknown_round_has_no_keys.
+
+(* regenerated from cmd/dc4bc_d on every run: every option key of the daemon is bound to the command-line
+   flag of the same name - the switch that turns signature verification off is its own flag, and no other
+   flag (e.g. the one that lists offsets to ignore) sets it *)
+Require Gen.Skeletons.
+Theorem C09_verification_switch_is_its_own_flag : Gen.Skeletons.daemon_flags_bound_to_themselves = true.
+Proof. reflexivity. Qed.
